@@ -19,6 +19,22 @@ class Cmp:
             self._sl[side] = flow.backward(self.body, self.lhs if side == "l" else self.rhs, at=self.bi)
         return self._sl[side]
 
+    def direct_field(self, side, adt, field):
+        """the operand is (a copy/borrow of) exactly the field - no arithmetic or call in between"""
+        op = self.lhs if side == "l" else self.rhs
+        for l, pr in flow.resolve_chain(self.body, op) or []:
+            if (adt, field) in flow.proj_fields(pr):
+                return True
+        return False
+
+    def oriented2(self, is_x, y_adt, y_field):
+        """like oriented, with y required to be exactly the given field"""
+        if is_x(self.sl("l")) and self.direct_field("r", y_adt, y_field):
+            return self.rel, self.true_edges, self.false_edges
+        if is_x(self.sl("r")) and self.direct_field("l", y_adt, y_field):
+            return FLIP[self.rel], self.true_edges, self.false_edges
+        return None
+
     def oriented(self, is_x, is_y):
         """if one side satisfies is_x(slice) and the other is_y(slice): (rel with x on the left, edges where `x rel y` holds, edges where not)"""
         if is_x(self.sl("l")) and is_y(self.sl("r")):
